@@ -179,6 +179,8 @@ def solve_one(job):
     `sat` is only accepted for the full problem."""
     if job[0] == 'cover':
         return cover_one(job)
+    if job[0] == 'retry':
+        return retry_one(job)
     oid, smt2, timeout, want_model = job[:4]
     relaxed = job[4] if len(job) > 4 else None
     t0 = time.time()
@@ -212,6 +214,27 @@ def solve_one(job):
                 break
         res['time'] = time.time() - t0
     return res
+
+
+def retry_one(job):
+    """second round for a VC the first round left `unknown`: ONE configuration with a long budget (the configurations of a VC run in
+    parallel on the idle cores, see solve_all).  Makes verdicts independent of the machine load: the short budgets of the first
+    round are an optimisation, not the decision."""
+    _, oid, smt2, cfgname, cfg, timeout = job
+    t0 = time.time()
+    ver = 'z3-%s' % z3.get_version_string()
+    try:
+        if cfgname in ('cvc5', 'z3old'):
+            r = run_cli(cfgname, smt2, timeout); reason = ''
+            backend = {'cvc5': 'cvc5-1.0.3', 'z3old': 'z3-4.8.12'}[cfgname]
+        else:
+            r, _, reason = _z3_try(smt2, timeout, cfg, False)
+            backend = ver + ' (%s, second round)' % cfgname
+    except Exception as e:
+        return dict(id=oid, status='error', backend=ver, time=time.time() - t0, model=None, reason=repr(e), cfg=cfgname)
+    if r == 'sat' and cfgname != 'default':
+        r = 'unknown'            # sat is only meaningful for the full problem under the complete procedure
+    return dict(id=oid, status=r, backend=backend, time=time.time() - t0, model=None, reason=reason, cfg=cfgname)
 
 
 def cover_one(job):
@@ -294,11 +317,49 @@ def _worker(conn):
 def hard_limit(job):
     if job[0] == 'cover':
         return 12
+    if job[0] == 'retry':
+        return job[5] / 1000.0 + 30
     # portfolio: relaxed 3s + full T + e-matching T/2 + cvc5 T + z3old T (+ process start-up), then slack
     return 12 + 16 + job[2] / 1000.0 * 3.2 + 25
 
 
+RETRY_MIN_BUDGET = 10000       # VCs with a shorter budget were already refuted concretely (refuter-first): no second round
+
+
 def solve_all(jobs):
+    """first round: portfolio per VC with short stage budgets; second round: every VC still `unknown` is retried with every
+    configuration in parallel and a long budget, first `unsat` wins"""
+    res = _run_pool(jobs)
+    strag = [i for i, (j, r) in enumerate(zip(jobs, res)) if j[0] not in ('cover', 'retry') and r['status'] == 'unknown' and j[2] >= RETRY_MIN_BUDGET]
+    if not strag or len(strag) > 24:
+        return res
+    retry = []; owner = []
+    for i in strag:
+        j = jobs[i]; oid, smt2, timeout = j[0], j[1], j[2]
+        long_t = int(timeout * 3)
+        relaxed = j[4] if len(j) > 4 else None
+        cfgs = []
+        for k, rel in enumerate([relaxed] if isinstance(relaxed, str) else (relaxed or [])):
+            cfgs.append(('quantifier-free relaxation %d' % k, {}, rel))
+        if 'forall' in smt2:
+            for seed in range(6):
+                cfgs.append(('e-matching only, seed %d' % seed, {'smt.mbqi': False, 'smt.auto_config': False, 'smt.random_seed': seed}, smt2))
+        cfgs += [('default', {}, smt2), ('cvc5', None, smt2), ('z3old', None, smt2)]
+        for nm, cfg, text in cfgs:
+            retry.append(('retry', oid, text, nm, cfg, long_t)); owner.append(i)
+    rr = _run_pool(retry, groups=owner)
+    for i in strag:
+        mine = [r for o, r in zip(owner, rr) if o == i]
+        win = [r for r in mine if r['status'] == 'unsat'] or [r for r in mine if r['status'] == 'sat']
+        if win:
+            w = win[0]
+            res[i] = dict(id=jobs[i][0], status=w['status'], backend=w['backend'], time=res[i]['time'] + w['time'], model=None, reason=w.get('reason', ''))
+        else:
+            res[i]['reason'] = (res[i].get('reason') or '') + ' | second round (x3 budget, %d configurations): all unknown' % len(mine)
+    return res
+
+
+def _run_pool(jobs, groups=None):
     """Solve every job with a hard wall-clock limit per job: z3 does not always honour its own timeout
     (nonlinear preprocessing), so each worker is a process that is killed and replaced when it overruns;
     the job is then `unknown` (never a verdict)."""
@@ -330,6 +391,8 @@ def solve_all(jobs):
         ready = wait([w['conn'] for w in busy], timeout=1.0)
         now = time.time()
         for w in busy:
+            if w['job'] is None or w.get('fresh', 0) > now:
+                continue
             if w['conn'] in ready:
                 try:
                     r = w['conn'].recv()
@@ -337,6 +400,15 @@ def solve_all(jobs):
                     r = dict(id=jobs[w['job']][0], status='unknown', backend='', time=now - w['t0'], model=None, reason='solver process died')
                     w['p'].kill(); nw = spawn(); w.update(nw)
                 results[w['job']] = r
+                if groups is not None and r.get('status') == 'unsat':
+                    # first proof wins: drop the other configurations of the same VC
+                    g = groups[w['job']]
+                    for jj in [x for x in pending if groups[x] == g]:
+                        pending.remove(jj); results[jj] = dict(id=jobs[jj][0], status='skipped', backend='', time=0.0, model=None, reason='')
+                    for w2 in busy:
+                        if w2 is not w and w2['job'] is not None and groups[w2['job']] == g and w2['conn'] not in ready:
+                            results[w2['job']] = dict(id=jobs[w2['job']][0], status='skipped', backend='', time=0.0, model=None, reason='')
+                            w2['p'].kill(); w2['p'].join(1); nw = spawn(); w2.update(nw); assign(w2); w2['fresh'] = now + 1e-9
                 assign(w)
             elif now - w['t0'] > hard_limit(jobs[w['job']]):
                 j = w['job']
